@@ -326,6 +326,7 @@ structure PgState where
   prompts : List Bytes := []
   resources : List Bytes := []
   templates : List Bytes := []
+  roots : List Bytes := []         -- the CLIENT's registry (listed whole)
 deriving Inhabited
 
 def PgState.get (p : PgState) : RKind → List Bytes
@@ -333,6 +334,7 @@ def PgState.get (p : PgState) : RKind → List Bytes
   | .listPrompts => p.prompts
   | .listResources => p.resources
   | .listResourceTemplates => p.templates
+  | .listRoots => p.roots
   | _ => []
 
 def PgState.set (p : PgState) (k : RKind) (l : List Bytes) : PgState :=
@@ -341,6 +343,7 @@ def PgState.set (p : PgState) (k : RKind) (l : List Bytes) : PgState :=
   | .listPrompts => { p with prompts := l }
   | .listResources => { p with resources := l }
   | .listResourceTemplates => { p with templates := l }
+  | .listRoots => { p with roots := l }
   | _ => p
 
 def pCursor : String → Option Cursor
@@ -352,7 +355,7 @@ def pCursor : String → Option Cursor
 
 /-- where a cursor stands relative to the registry, for the clause text -/
 def cursorPos (keys : List Bytes) : Cursor → String
-  | .first => "a request without cursor"
+  | .first => if keys.isEmpty then "a request without cursor against an EMPTY registry" else "a request without cursor"
   | .garbage => "a cursor that does not decode"
   | .after uid =>
     let n := keys.length
@@ -376,7 +379,7 @@ def showPage (r : ROut × Option Bytes) : String :=
 def memberName (k : RKind) : String :=
   match k with
   | .listTools => "tools" | .listPrompts => "prompts" | .listResources => "resources"
-  | .listResourceTemplates => "resourceTemplates" | _ => "?"
+  | .listResourceTemplates => "resourceTemplates" | .listRoots => "roots" | _ => "?"
 
 /-! ## contexts in which content is decoded -/
 
@@ -581,6 +584,11 @@ def clauseBody : Clause → String
   | .rejectedF2_02 => "batch_exactly_once: a well-formed batch containing a notification is rejected as a duplicate id; the read error tears the session down (F2)"
   | .rejected02 => "batch_exactly_once: a well-formed batch is rejected by Read"
   | .dtWrite => "decode_total: ioConn.Write panicked"
+  | .cwCrash c => s!"ndjson_roundtrip: concurrent Writes on one connection: ioConn.Write {crashText c}"
+  | .cwGarbled n =>
+    s!"ndjson_roundtrip: concurrent Writes on one connection (a stream that takes a Write in pieces): {n} line(s) of the stream are no JSON value — the frames of two writers ran into each other, neither message reaches the peer"
+  | .cwLost m =>
+    s!"ndjson_roundtrip: concurrent Writes on one connection: the message {showMsg m} is not among the lines of the stream"
   | .badFrame => "ndjson_roundtrip: the bytes written are not one compact payload followed by a single LF"
   | .writtenDiffers => "batch_roundtrip: the message written differs from the message given"
   | .dtNdReader .panic => "decode_total: the reader of an io connection panicked on input bytes"
@@ -953,20 +961,20 @@ def stepWire (d : DState) (toks : List String) (impl : String) : DState × Verdi
   | "r.pg.add" :: method :: r =>
     match rkindOf method, pMany pStr r with
     | some k, (uids, []) =>
-      if k.isPaged then ({ d with pg := d.pg.set k (uids.foldl (fun l u => keyInsert u l) (d.pg.get k)) }, { model := "ok" }) else bad d
+      if k.isListed then ({ d with pg := d.pg.set k (RegOp.apply (d.pg.get k) (.add uids)) }, { model := "ok" }) else bad d
     | _, _ => bad d
   | "r.pg.rm" :: method :: r =>
     match rkindOf method, pMany pStr r with
     | some k, (uids, []) =>
-      if k.isPaged then ({ d with pg := d.pg.set k ((d.pg.get k).filter (fun u => !uids.contains u)) }, { model := "ok" }) else bad d
+      if k.isListed then ({ d with pg := d.pg.set k (RegOp.apply (d.pg.get k) (.rm uids)) }, { model := "ok" }) else bad d
     | _, _ => bad d
   | ["r.pg.list", method, cur] =>
     -- the list member of the result AS WRITTEN ON THE WIRE: arr <n> <uids> nc <uid|-> / null / missing / error
     match rkindOf method, pCursor cur with
     | some k, some c =>
-      if !k.isPaged then bad d else
+      if !k.isListed || (!k.isPaged && c != .first) then bad d else
       let keys := d.pg.get k
-      let page := listPage k (fun u => .str u) keys d.pg.ps c
+      let page := listReg k (fun u => .str u) keys d.pg.ps c
       let obs : PgObs := match itoks.head? with
         | some "null" => .null
         | some "missing" => .missing
@@ -999,6 +1007,38 @@ def stepWire (d : DState) (toks : List String) (impl : String) : DState × Verdi
     let (mon', verd) := ioRead d.mon (pReadObs impl)
     let viol := verd.select (pidOf d.pid) (d.also.contains "C03")
     ({ d with io := io', mon := mon' }, { model := model, violated := viol.map (clauseText d.pid) })
+  | "io.cw" :: _pieces :: r =>
+    -- several goroutines write at the same time; observed: the lines of the stream, sorted
+    match pMany pMsg r with
+    | (msgs, []) =>
+      let (io', outs) := cwRun d.io msgs
+      let lines := (cwLines outs).map showJ
+      let sorted := (lines.toArray.qsort (fun a b => a < b)).toList
+      let model := if outs.contains .panic then "panic"
+        else " ".intercalate (["cw", toString sorted.length] ++ sorted)
+      let obs : CwObs := match crashOf impl with
+        | some c => .crash c
+        | none =>
+          match itoks with
+          | "cw" :: n :: rest =>
+            let rec go (fuel : Nat) (ts : List String) (acc : List (Option JVal)) : Option (List (Option JVal)) :=
+              match fuel, ts with
+              | _, [] => some acc.reverse
+              | 0, _ => none
+              | fuel + 1, t :: ts' =>
+                if t.startsWith "!" then go fuel ts' (none :: acc)
+                else match pJ (t :: ts') with
+                  | some (v, r') => go fuel r' (some v :: acc)
+                  | none => none
+            (match go (rest.length + 1) rest [] with
+              | some l => if n == toString l.length then .lines l else .other
+              | none => .other)
+          | _ => .other
+      let mon' := { d.mon with mopen := msgs.foldl (fun o m => (monWrite o m).1) d.mon.mopen }
+      let viol := if d.pid == "C19" then cwMonitor d.mon.outCap msgs obs else
+        (match obs with | .crash _ => some .writePanic02 | _ => none)
+      ({ d with io := io', mon := mon' }, { model := model, violated := viol.map (clauseText d.pid) })
+    | _ => bad d
   | "io.write" :: r =>
     match pMsg r with
     | some (m, []) =>
